@@ -14,6 +14,7 @@ def tiers(qchecks, qshards, tchecks, tshards=12, qtimeout=600, ttimeout=3000, **
     return dict(quick=q, thorough=t)
 
 CONF = {
+    "C01": tiers(2500, 4, 60000, 12),
     "C12": tiers(20000, 2, 200000, 12),
 }
 
